@@ -87,7 +87,7 @@ func canon(ti sidecar.TargetsInfo) string {
 	var l []tj
 	for job, ts := range ti.Targets {
 		for _, t := range ts {
-			l = append(l, tj{job, t.Hash, t.Labels.String(), t.TargetState, t.Series, t.TotalSeries})
+			l = append(l, tj{job, t.Hash, labels.New(t.Labels...).String(), t.TargetState, t.Series, t.TotalSeries})
 		}
 	}
 	sort.Slice(l, func(a, b int) bool {
@@ -244,11 +244,45 @@ func c09Run(tp *core.Tape, e *core.Env) {
 	tmpl := filepath.Join(base, "tmpl")
 	_ = os.MkdirAll(tmpl, 0o755)
 
-	kindNames := []string{"empty", "one", "many", "large"}
+	kindNames := []string{"empty", "one", "many", "large", "same-targets-other-details"}
 	ka := tp.Weighted("kind_a", 2, 3, 3, 1)
-	kb := tp.Weighted("kind_b", 2, 3, 3, 1)
+	kb := tp.Weighted("kind_b", 2, 3, 3, 1, 3)
 	A := genAssignment(tp, ka)
-	B := genAssignment(tp, kb)
+	var B map[string][]*target.Target
+	if kb == 4 {
+		// the same targets (same jobs, same hashes), but state, series estimates or a label value differ
+		B = map[string][]*target.Target{}
+		changed := false
+		for job, ts := range A {
+			for _, t := range ts {
+				c := *t
+				c.Labels = append(labels.Labels{}, t.Labels...)
+				switch tp.Choose("detail", 4) {
+				case 0:
+					if c.TargetState == "" {
+						c.TargetState = "in_transfer"
+					} else {
+						c.TargetState = ""
+					}
+					changed = true
+				case 1:
+					c.Series += 7
+					c.TotalSeries += 11
+					changed = true
+				case 2:
+					c.Labels = append(c.Labels, labels.Label{Name: "added", Value: "later"})
+					changed = true
+				}
+				B[job] = append(B[job], &c)
+			}
+		}
+		if !changed {
+			kb = 1
+			B = genAssignment(tp, kb)
+		}
+	} else {
+		B = genAssignment(tp, kb)
+	}
 	oldFormat := tp.Bool("old_format_start", 1, 6)
 	sample := map[string]interface{}{"A": kindNames[ka], "B": kindNames[kb], "old_format_start": oldFormat}
 	defer e.SetSample(sample)
